@@ -162,7 +162,8 @@ ClassifyCall(rec) ==
 \* closed loop: every change whose handler succeeded has its transformation's effect on the object at rest, exactly once
 ClassifyLoop(run) ==
   LET cnt(x) == Len(SelectSeq(run.tags, LAMBDA t : t = x)) IN
-  IF \E i \in DOMAIN run.handled : cnt(run.handled[i]) = 0 THEN "transformation_lost"
+  IF ~\E i \in DOMAIN run.handled : run.handled[i] = run.last THEN "the_last_change_was_never_handled"
+  ELSE IF \E i \in DOMAIN run.handled : cnt(run.handled[i]) = 0 THEN "transformation_lost"
   ELSE IF \E i \in DOMAIN run.tags : cnt(run.tags[i]) > 1 THEN "transformation_applied_twice"
   ELSE IF \E i \in DOMAIN run.tags : ~\E j \in DOMAIN run.handled : run.handled[j] = run.tags[i] THEN "effect_without_a_handled_change"
   ELSE "ok"
